@@ -48,8 +48,21 @@ def submit_closures(fx):
                     continue
                 seen.add(s["def"])
                 f = fx.fn(s["def"])
+                if f is None and s.get("kind") == "adt" and kind in ("waiting", "forcing"):
+                    # a named type standing in for the closure: `struct BoundedForceTx(Sender); impl ForceTxFn for ..`;
+                    # its `send` method is the closure body, its fields are the captures
+                    f = adt_submit_object(fx, s["def"], TX_TRAIT if kind == "waiting" else FORCE_TRAIT)
                 out.append((kind, f, key))
     return out
+
+
+def adt_submit_object(fx, adt, trait):
+    for g in fx.d["fns"]:
+        if g.get("impl_trait_def") == trait and (g.get("impl_self") or "").split("<")[0] == adt and g["def"].endswith("::send") and g["kind"] == "assoc_fn":
+            a = fx.adts.get(adt)
+            fields = [fl["ty"] for fl in a["variants"][0]["fields"]] if a and len(a["variants"]) == 1 else []
+            return dict(g, upvars=fields, _adt=adt)
+    return None
 
 
 def closure_instances(fx, cdef):
